@@ -21,6 +21,7 @@
 import GM.Model.Footnote
 import GM.Spec.Footnote
 import GM.Proof.Footnote
+import GM.Props.C16E2E
 
 namespace GM.Props.C16
 open GM GM.Footnote GM.Spec.Footnote
@@ -28,7 +29,7 @@ open GM GM.Footnote GM.Spec.Footnote
 /-- The full statement of C16 for one parse: `pre` the configured id prefix, `labels` the definitions, `evs` the
     reference events. -/
 def FootnoteConsistent (pre : Bytes) (labels : List Bytes) (evs : List Event) : Prop :=
-  Consistent pre labels (evs.map (·.label)) (render pre labels evs)
+  Consistent pre labels (evs.map (·.label)) (Footnote.render pre labels evs)
 
 instance (pre : Bytes) (labels : List Bytes) (evs : List Event) : Decidable (FootnoteConsistent pre labels evs) := by
   unfold FootnoteConsistent; infer_instance
@@ -53,7 +54,7 @@ theorem footnote_rendered_iff_counted (pre : Bytes) (labels : List Bytes) (evs :
     removed footnote), every listed item is the target of a reference that appears in the output. -/
 theorem footnote_items_visibly_referenced (pre : Bytes) (labels : List Bytes) (evs : List Event)
     (h : Proof.Footnote.allCreatedRendered labels evs = true) :
-    ∀ it ∈ (render pre labels evs).items, ∃ r ∈ (render pre labels evs).refs, r.href = it.id :=
+    ∀ it ∈ (Footnote.render pre labels evs).items, ∃ r ∈ (Footnote.render pre labels evs).refs, r.href = it.id :=
   Proof.Footnote.items_visibly_referenced pre labels evs h
 
 /-- Decimal formatting (strconv.Itoa in the model) writes a numeral whose value is the number: it is injective and the
@@ -71,26 +72,81 @@ theorem link_id_injective (pre : Bytes) (l l' : Link) (k k' : Nat) (hk : l.index
     back-link, no reference is rendered, and the output is consistent -/
 def altOnly : List Event := [{ label := [49], dropped := true, host := none }]
 example : FootnoteConsistent [] [[49]] altOnly := by decide
-example : (render [] [[49]] altOnly).items = [{ src := 0, id := [102, 110, 58, 49], backs := [] }] := by decide
-example : (render [] [[49]] altOnly).refs = [] := by decide
+example : (Footnote.render [] [[49]] altOnly).items = [{ src := 0, id := [102, 110, 58, 49], backs := [] }] := by decide
+example : (Footnote.render [] [[49]] altOnly).refs = [] := by decide
 /-- …so under the stricter reading of "referenced" this item has no visible reference -/
-example : ¬ ∀ it ∈ (render [] [[49]] altOnly).items, ∃ r ∈ (render [] [[49]] altOnly).refs, r.href = it.id := by decide
+example : ¬ ∀ it ∈ (Footnote.render [] [[49]] altOnly).items, ∃ r ∈ (Footnote.render [] [[49]] altOnly).refs, r.href = it.id := by decide
 
 /-- former witness 2, `[^a]: see[^b]` + `[^b]: bee` (reference only inside a removed footnote) -/
 def removedOnly : List Event := [{ label := [98], dropped := false, host := some 0 }]
 example : FootnoteConsistent [] [[97], [98]] removedOnly := by decide
-example : ((render [] [[97], [98]] removedOnly).items.map (·.backs), (render [] [[97], [98]] removedOnly).refs) = ([[]], []) := by decide
+example : ((Footnote.render [] [[97], [98]] removedOnly).items.map (·.backs), (Footnote.render [] [[97], [98]] removedOnly).refs) = ([[]], []) := by decide
 
 /-- a non-trivial document: `a[^x] b[^y] c[^x]`, `[^y]: two [^x]`, `[^x]: one`, `[^z]: unused` -/
 def sampleEvents : List Event :=
   [ { label := [120], dropped := false, host := none }, { label := [121], dropped := false, host := none },
     { label := [120], dropped := false, host := none }, { label := [120], dropped := false, host := some 0 } ]
 
-example : ((render [112, 45] [[121], [120], [122]] sampleEvents).items.length,
-           (render [112, 45] [[121], [120], [122]] sampleEvents).refs.length) = (2, 4) := by decide
+example : ((Footnote.render [112, 45] [[121], [120], [122]] sampleEvents).items.length,
+           (Footnote.render [112, 45] [[121], [120], [122]] sampleEvents).refs.length) = (2, 4) := by decide
 example : Proof.Footnote.allCreatedRendered [[121], [120], [122]] sampleEvents = true := by decide
 /-- mixed: one reference in alt text, one visible: RefIndex is counted over the rendered ones only -/
-example : (render [] [[49]] [{ label := [49], dropped := true, host := none }, { label := [49], dropped := false, host := none }]).refs.map (·.id)
+example : (Footnote.render [] [[49]] [{ label := [49], dropped := true, host := none }, { label := [49], dropped := false, host := none }]).refs.map (·.id)
     = [[102, 110, 114, 101, 102, 58, 49]] := by decide
+
+/-- (re-export of `GM.Props.C16E2E.convertf_off_is_core`) **Without the extension the model is `convertCore`** (guarded and unguarded): the copied block driver with the footnote
+    state layer erased is the driver of GM.Convert (no Footnote is ever opened: the layer stays empty), every tag is plain,
+    the trigger table is the default one, no FootnoteLink is decoded, the transformer finds no list, and the node renderers'
+    state is the core's. -/
+theorem e2e_convertf_off_is_core : type_of% @GM.Props.C16E2E.convertf_off_is_core := @GM.Props.C16E2E.convertf_off_is_core
+
+/-- (re-export of `GM.Props.C16E2E.convertf_events_are_abstraction`) **The abstraction GM.Props.C16 speaks about is what the concrete model produces.** For every source on which the two
+    parse phases return (block-phase state `(f, st)`, tree `t` in front of the AST transformer):
+    (1) `absOf` answers `labels` = the `Ref`s of the FootnoteList's children in the final node store (the definitions in the
+        order `Close` appended them) and `events` = one event per FootnoteLink node of `t` in document order (= creation
+        order), each with the label of the definition it resolved to, `dropped` = it lies below an Image, `host` = the
+        Footnote that encloses it;
+    (2) the document the renderer receives is the transformer `finishDoc` applied to `GM.Footnote.transform labels events` —
+        the very function `footnote_consistent` is about — with `if list == nil return` decided by the parse context;
+    (3) `convertF` renders exactly that document.
+    This replaces the probes' OBSERVATION of (labels, events) by the model's computation; the tie (component `convertf`)
+    compares the two on every document. -/
+theorem e2e_convertf_events_are_abstraction : type_of% @GM.Props.C16E2E.convertf_events_are_abstraction := @GM.Props.C16E2E.convertf_events_are_abstraction
+
+/-- (re-export of `GM.Props.C16E2E.footnote_link_resolves`) **Every node the inline parser returns is a FootnoteLink for a definition of the list** — the FIRST one whose `Ref`
+    equals the bytes between `[^` and `]` (footnote.go:162-172, `index == 0` ⇒ nil): without a list, or with an unknown label,
+    it returns nil. -/
+theorem e2e_footnote_link_resolves : type_of% @GM.Props.C16E2E.footnote_link_resolves := @GM.Props.C16E2E.footnote_link_resolves
+
+/-- (re-export of `GM.Props.C16E2E.footnote_label_resolution`) the position `resolve` answers is the one GM.Spec.Footnote.resolve? (the meaning of "the definition a reference `[^v]`
+    means" in clause 6) names, and the label there is `v` -/
+theorem e2e_footnote_label_resolution : type_of% @GM.Props.C16E2E.footnote_label_resolution := @GM.Props.C16E2E.footnote_label_resolution
+
+/-- (re-export of `GM.Props.C16E2E.convertf_abstraction_consistent`) **C16 for the abstraction of every parse**: whatever the source, the (labels, events) the concrete model computes
+    satisfy the six clauses (`GM.Props.C16.FootnoteConsistent`, i.e. `footnote_consistent`, composed with `absOf`; this file does
+    not import GM.Props.C16 so that it can be re-exported there). -/
+theorem e2e_convertf_abstraction_consistent : type_of% @GM.Props.C16E2E.convertf_abstraction_consistent := @GM.Props.C16E2E.convertf_abstraction_consistent
+
+/-- (re-export of `GM.Props.C16E2E.convertf_tree_shows_abstraction`) **The tree the renderer receives shows exactly the output of GM.Footnote.render on its abstraction**, for EVERY tree `t`
+    in front of the transformer that satisfies (S) — in particular (by the tie's evaluation) the one of every source: the
+    `(Index, RefCount, RefIndex)` `fill` writes into the FootnoteLinks in creation order, the removal / move of the list, the
+    kept definitions in sorted order with their back-links appended to the last Paragraph, read back in output order
+    (nothing below an Image), ARE `items` / `refs` of GM.Model.Footnote (`renderedLinks`: body first, then each kept
+    definition's hosted links) — ids, hrefs, shown numbers. Proof: GM.Proof.ConvertFTree (`fill` hands the fields out in
+    event order; erasing the fields shows the shape is unchanged; a walk over body / list / notes; `allLinkFields` keeps
+    creation order and its rendered entries are the numbered links). -/
+theorem e2e_convertf_tree_shows_abstraction : type_of% @GM.Props.C16E2E.convertf_tree_shows_abstraction := @GM.Props.C16E2E.convertf_tree_shows_abstraction
+
+/-- (re-export of `GM.Props.C16E2E.convertf_shape_implies_oracle`) the Lean-defined oracle the tie evaluates (`treeShowsAbsB`) is implied by (S) -/
+theorem e2e_convertf_shape_implies_oracle : type_of% @GM.Props.C16E2E.convertf_shape_implies_oracle := @GM.Props.C16E2E.convertf_shape_implies_oracle
+
+/-- (re-export of `GM.Props.C16E2E.convertf_footnotes_consistent`) **C16 for the tree the renderer receives.** For every source whose parse satisfies (S): the ids / hrefs / shown numbers
+    FootnoteHTMLRenderer writes for the document `convertF` renders (`treeOutput`: `<li id>` + back-link targets per item,
+    `<sup id>` / `href` / number per reference, in output order, nothing below an Image) are those of an output `o` that
+    satisfies the six clauses of GM.Spec.Footnote.Consistent w.r.t. the definitions and the reference labels of the source:
+    items numbered 1…n in listed order; every reference links to exactly one item and shows its number; every back-link
+    points to exactly one rendered reference of its own item; every reference has exactly one back-link; all ids distinct;
+    every listed definition is referenced. -/
+theorem e2e_convertf_footnotes_consistent : type_of% @GM.Props.C16E2E.convertf_footnotes_consistent := @GM.Props.C16E2E.convertf_footnotes_consistent
 
 end GM.Props.C16
